@@ -1,3 +1,117 @@
-(* Property C12 -- placeholder while the machinery is being built. *)
-From Coq Require Import List String.
-From Verif Require Import Base.Result Model.NumExpr Spec.Arith.
+(* Property C12 -- numeric expressions evaluate as arithmetic; comparisons use the stated tolerance;
+   assignments write v, old+v, old-v; printing and reading back preserves structure and, up to the print
+   precision, value.  Statements only; proofs live in Proofs/C12_*.v.
+
+   The model (Model/NumExpr.v) is parametrised by the configuration: EPSILON, DEFAULT_DIGITS, the relative
+   tolerance handed to math.isclose and whether forms with other than two operands are rejected.  The theorems
+   hold for every configuration unless they say otherwise; [cfg_pinned] is the pinned tree (rel_tol = 1e-9 by
+   default, arity unchecked), [cfg_fixed] the tree after the repairs of D20 and D08 (what the correspondence
+   check runs against).
+
+   Full statement of the comparison part:  compare_op cfg (cmp_name c) x y = Ok (spec_cmp eps c x y)  for all
+   finite x y and eps >= 0.  It is
+     - FALSE on the pinned configuration: C12_cmp_refuted_pinned (deviation D20, repaired),
+     - true whenever the relative term does not fire: C12_cmp_abs (every configuration; C12_cmp makes the
+       relative term explicit),
+     - true on the repaired configuration: C12_cmp_fixed, under three IEEE-754 facts about the primitive
+       operations that are HYPOTHESES of the theorem (they are statements of Coq's FloatAxioms; nothing is
+       assumed globally, no axiom is used).
+   Full statement of the arity part: a form with other than two operands is rejected: C12_arity (repaired
+   configuration), C12_arity_refuted_pinned (deviation D08, repaired). *)
+From Coq Require Import ZArith List String PrimFloat FloatOps.
+From Verif Require Import Base.Result Base.Str Base.Sexp Base.Float Model.NumExpr Spec.Arith
+  Proofs.C12_Eval Proofs.C12_Cmp Proofs.C12_Print Proofs.C12_Main.
+Import ListNotations.
+Open Scope string_scope.
+
+(* Evaluation: reading the prefix syntax of ANY binary expression and calculating it in a state gives the
+   spec's value ((op a b) = a op b; a missing fluent reads 0; division by zero is an error). *)
+Theorem C12_eval : forall (strict : bool) (pn : string -> option float) (funcs : domain_functions)
+    (tok : float -> string) (st : fluents) (e : aexp),
+  wf_aexp pn funcs tok e ->
+  exists t, construct strict pn funcs (render tok e) = Ok t /\
+            calculate st t = res_of_opt (aeval (val_of st) e).
+Proof. exact C12_eval_lemma. Qed.
+
+(* Arity: with the check of fix D08, an operator / comparison / assignment form with other than two operands
+   is rejected ... *)
+Theorem C12_arity : forall (pn : string -> option float) (funcs : domain_functions) (h : string) (args : list sexp),
+  str_in h LEGAL_NUMERICAL_EXPRESSIONS = true -> alookup h funcs = None -> List.length args <> 2%nat ->
+  exists k, construct true pn funcs (headed h args) = Err k.
+Proof. intros pn funcs h args. exact (strict_rejects_arity true pn funcs h args eq_refl). Qed.
+
+(* ... which the pinned code does not do (D08). *)
+Theorem C12_arity_refuted_pinned :
+  exists h args, str_in h LEGAL_NUMERICAL_EXPRESSIONS = true /\ List.length args <> 2%nat /\
+                 exists t, construct false ex_pn ex_funcs (headed h args) = Ok t.
+Proof. exact C12_arity_refuted_pinned_lemma. Qed.
+
+(* Comparisons, every configuration: "within the tolerance, else the ordering", where the tolerance is the
+   absolute term eps OR math.isclose's relative term. *)
+Theorem C12_cmp : forall (cfg : ncfg) (c : cmp) (x y : float),
+  tol_ok (cfg_rel cfg) (cfg_eps cfg) -> is_infinity x = false -> is_infinity y = false ->
+  compare_op cfg (cmp_name c) x y =
+  Ok (cmp_with (close (cfg_eps cfg) x y || rel_term (cfg_rel cfg) x y) c x y).
+Proof. exact C12_cmp_lemma. Qed.
+
+Theorem C12_cmp_abs : forall (cfg : ncfg) (c : cmp) (x y : float),
+  tol_ok (cfg_rel cfg) (cfg_eps cfg) -> is_infinity x = false -> is_infinity y = false ->
+  rel_term (cfg_rel cfg) x y = false ->
+  compare_op cfg (cmp_name c) x y = Ok (spec_cmp (cfg_eps cfg) c x y).
+Proof. exact C12_cmp_abs_lemma. Qed.
+
+Theorem C12_cmp_strict : forall (cfg : ncfg) (x y : float),
+  compare_op cfg "<" x y = Ok (PrimFloat.ltb x y) /\ compare_op cfg ">" x y = Ok (PrimFloat.ltb y x).
+Proof. exact C12_cmp_strict_lemma. Qed.
+
+Theorem C12_cmp_refuted_pinned :
+  exists x y, is_infinity x = false /\ is_infinity y = false /\ tol_ok (cfg_rel (cfg_pinned eps_default 4)) eps_default /\
+    compare_op (cfg_pinned eps_default 4) "=" x y = Ok true /\ spec_cmp eps_default CEq x y = false.
+Proof. exact C12_cmp_refuted_pinned_lemma. Qed.
+
+Theorem C12_cmp_fixed :
+  ieee_mul_spec -> ieee_abs_spec -> ieee_leb_spec ->
+  forall (eps : float) (digits : nat) (c : cmp) (x y : float),
+  f_is_finite x = true -> f_is_finite y = true -> PrimFloat.leb 0%float eps = true ->
+  PrimFloat.ltb eps 0%float = false ->
+  compare_op (cfg_fixed eps digits) (cmp_name c) x y = Ok (spec_cmp eps c x y).
+Proof. exact C12_cmp_fixed_lemma. Qed.
+
+(* Assignments: assign / increase / decrease return the target with v, old+v, old-v (old = the state's value,
+   0 when missing; v = the calculated right-hand side) ... *)
+Theorem C12_assign : forall (cfg : ncfg) (st : fluents) (a : asg) (f : nfun) (rhs : ntree),
+  evaluate cfg st (NBin (asg_name a) (NFl f) rhs) =
+  (do v <- calculate st rhs; Ok (EvAssign (untyped_rep f) (spec_assign a (val_of st (untyped_rep f)) v))).
+Proof. exact C12_assign_lemma. Qed.
+
+(* ... and storing it changes the target's value and nothing else. *)
+Theorem C12_assign_frame : forall (st : fluents) (k : string) (v : float) (k' : string),
+  val_of (write_back st (EvAssign k v)) k' = if String.eqb k' k then v else val_of st k'.
+Proof. exact C12_assign_frame_lemma. Qed.
+
+(* Printing, value: the numeral printed for ANY constant v with ANY number of digits reads back EXACTLY (as a
+   decimal, in Z) to within half a unit of the last printed digit of v's exact binary value; integers are
+   printed exactly; infinities and NaN by name. *)
+Theorem C12_print_value : forall (digits : nat) (v : float), print_ok digits v (num_text digits v) = true.
+Proof. exact C12_print_value_lemma. Qed.
+
+(* Printing, structure: the printed token tree is read back into a tree with the same operators and fluents at
+   the same places, each constant replaced by what float() makes of its numeral. *)
+Theorem C12_print_structure : forall (strict : bool) (pn : string -> option float) (funcs : domain_functions)
+    (digits : nat) (t : ntree),
+  tree_ok pn funcs digits t ->
+  exists t', construct strict pn funcs (print_sexp digits t) = Ok t' /\ same_shape pn digits t t'.
+Proof. exact C12_print_structure_lemma. Qed.
+
+Print Assumptions C12_eval.
+Print Assumptions C12_arity.
+Print Assumptions C12_arity_refuted_pinned.
+Print Assumptions C12_cmp.
+Print Assumptions C12_cmp_abs.
+Print Assumptions C12_cmp_strict.
+Print Assumptions C12_cmp_refuted_pinned.
+Print Assumptions C12_cmp_fixed.
+Print Assumptions C12_assign.
+Print Assumptions C12_assign_frame.
+Print Assumptions C12_print_value.
+Print Assumptions C12_print_structure.
